@@ -93,6 +93,14 @@ typedef struct console {
 
 	const console_cmd_t *cmd;
 	pt_t pt;
+
+	/*!
+	 * Progress of console_eval() through the string it is injecting.
+	 *
+	 * This cannot live in the scratch buffer: that is cleared every time
+	 * a command completes.
+	 */
+	uint16_t eval_index;
 } console_t;
 
 /*!
